@@ -203,6 +203,25 @@ def check_cases(cases, out, label):
                               % (name, arr, [vals[z] for z in ok_levels], zk, K, ok_levels), case=jcase)
             elif not (isinstance(arr, np.ndarray) and arr.dtype == np.float64):
                 out.violation('oracle', 'array path does not return a float64 array', case=jcase)
+        # integer-typed arguments: a list of Python ints and an integer-dtype ndarray (whole-number levels of the
+        # knot range) must give the float values the scalar calls give
+        lo_i, hi_i = math.ceil(z0 - 2), math.floor(zn)
+        if hi_i - lo_i >= 1:
+            ints = sorted({lo_i, hi_i, (lo_i + hi_i) // 2, lo_i + 1})
+            ints = [i for i in ints if lo_i <= i <= hi_i]
+            want_i = []
+            for i in ints:
+                st_i, v_i = call(T, float(i))
+                want_i.append(float(v_i) if st_i == 'ok' else None)
+            if None not in want_i:
+                for ctor, name in ((lambda l: np.array(l, dtype='int64'), 'int64-ndarray'), (list, 'list-of-int')):
+                    st, arr = call(T, ctor(ints))
+                    out.evaluations += 1
+                    out.count('array:' + name)
+                    if st == 'err' or [float(x) for x in arr] != want_i:
+                        out.violation('oracle', 'integer-typed array argument (%s) gives %s, scalar calls at the same '
+                                      'levels give %s: knots=%s K=%s Tmin=%r levels=%s'
+                                      % (name, arr, want_i, zk, K, Tmin, ints), case=jcase)
         refused = [z for z in c['above'] if z not in vals and z not in returned_above]
         if refused:
             st, arr = call(T, np.array(ok_levels + refused[:1]))
@@ -224,6 +243,34 @@ def check_cases(cases, out, label):
         elif s == 'EVALFAIL':
             out.corr_errors.append(('%s goal (knots=%s, level=%r)' % (label, c['zk'], z),
                                     'T_closed_eval could not decide the comparisons'))
+
+
+def check_history(rng, count, out):
+    """Many transmissivity functions built, used and discarded one after the other in one process, all evaluated
+    at the SAME levels: each must return its own minimum + integral (state kept between objects - a cache keyed by
+    object identity or by level - shows up here and nowhere else)."""
+    import gc
+    levels = [-60.0, -20.0, 0.0, 35.0, 70.0]
+    for n in range(count):
+        zk = [-100.0, rng.choice([-40.0, -30.0, -10.0]), rng.choice([10.0, 25.0, 50.0]), 100.0]
+        K = H.gen_conductivities(rng, len(zk), 'random')
+        Tmin = H.round_sig(H.loguniform(rng, 1e-3, 1e3), 3)
+        st, T = build(zk, K, Tmin)
+        if st != 'ok':
+            continue
+        jcase = dict(level='history', n=n)
+        for z in levels:
+            out.evaluations += 1
+            st, v = call(T, z)
+            want = ref_value(zk, K, Tmin, z)
+            if st != 'ok' or not close(float(v), want):
+                out.violation('oracle', 'function number %d built in this process returns %r at level %r; its own minimum '
+                              '+ integral is %r (knots=%s K=%s Tmin=%r): values depend on functions built before'
+                              % (n, v, z, want, zk, K, Tmin), case=jcase, )
+                break
+        out.count('history:functions')
+        del T
+        gc.collect()
 
 
 def check_malformed(cases, out, label):
@@ -254,6 +301,7 @@ def run(ctx, out):
     cases = [SHIPPED] + [gen_case(rng, k, nlev) for k in range(nsets)]
     check_cases(cases, out, 'fl')
     check_malformed(malformed_cases(rng, 12 if tier == 'quick' else 60), out, 'malformed')
+    check_history(C.rng_for(seed, PROP, 'history'), 40 if tier == 'quick' else 300, out)
     out.rule = ('(knot set, level) pairs through SplineTransmissivity: 2-8 knots with spacings 0.5-500 mm, '
                 'conductivities 1e-4..1e5 in 7 shapes (random, rising, falling, equal adjacent pair, at the bounds, '
                 'sawtooth, factors near 1); levels below / at / one ulp above the lowest knot, at and one ulp beside '
@@ -274,7 +322,9 @@ def run(ctx, out):
 
 def replay(case, out):
     C.import_spowtd()
-    if case.get('level') == 'malformed':
+    if case.get('level') == 'history':
+        check_history(C.rng_for(0, PROP, 'history'), 60, out)
+    elif case.get('level') == 'malformed':
         check_malformed([case], out, 'replay')
     else:
         check_cases([case], out, 'replay')
